@@ -2,10 +2,12 @@
 void registerEquivEngine();
 void registerImportEngine();
 void registerAnnotEngine();
+void registerPurityEngine();
 
 extern "C" void cellsimRegisterEngines()
 {
     registerEquivEngine();
     registerImportEngine();
     registerAnnotEngine();
+    registerPurityEngine();
 }
